@@ -1106,6 +1106,8 @@ def _propagate_single_use(stmts, fn_loads, fn_stores):
                 header = ("value", nxt.value)
             elif isinstance(nxt, ast.Assign) and not any(isinstance(n, ast.Name) and n.id == x for t in nxt.targets for n in ast.walk(t)):
                 header = ("value", nxt.value)
+            if header is not None and any(isinstance(c_, ast.Call) and isinstance(c_.func, ast.Name) and c_.func.id == x for c_ in ast.walk(header[1])):
+                header = None      # the local is a callable that is chosen first and called then: keep the two steps
             if header is not None and sum(1 for n in ast.walk(header[1]) if isinstance(n, ast.Name) and n.id == x and isinstance(n.ctx, ast.Load)) == 1 \
                     and not any(isinstance(c, (ast.ListComp, ast.SetComp, ast.DictComp, ast.GeneratorExp, ast.Lambda)) and any(isinstance(n, ast.Name) and n.id == x for n in ast.walk(c))
                                 for c in ast.walk(header[1])):
